@@ -16,9 +16,18 @@ func New[K comparable, V any]() *SyncMap[K, V] {
 	}
 }
 
+// Keys and Items walk a snapshot taken under the lock: the loop body is free to call Set or
+// Delete (the session GC does), and concurrent writers never meet an iteration of the map itself.
 func (s *SyncMap[K, V]) Keys() iter.Seq[K] {
 	return func(yield func(K) bool) {
+		s.mu.RLock()
+		keys := make([]K, 0, len(s.ma))
 		for k := range s.ma {
+			keys = append(keys, k)
+		}
+		s.mu.RUnlock()
+
+		for _, k := range keys {
 			if !yield(k) {
 				return
 			}
@@ -28,7 +37,14 @@ func (s *SyncMap[K, V]) Keys() iter.Seq[K] {
 
 func (s *SyncMap[K, V]) Items() iter.Seq[V] {
 	return func(yield func(V) bool) {
+		s.mu.RLock()
+		values := make([]V, 0, len(s.ma))
 		for _, v := range s.ma {
+			values = append(values, v)
+		}
+		s.mu.RUnlock()
+
+		for _, v := range values {
 			if !yield(v) {
 				return
 			}
